@@ -22,6 +22,7 @@ def playerMsg : PErr → String
 def werrMsg : WErr → String
   | .player e => "err:player:" ++ playerMsg e
   | .noteRange => "err:noteRange"
+  | .drumNoteInLoop => "err:drumNoteInLoop"
   | .drumMissing => "err:drumMissing"
   | .subMissing => "err:subMissing"
   | .platformMissing => "err:platformMissing"
